@@ -27,7 +27,11 @@ func (p *Prober) VerifStopEpoch() int64 {
 }
 
 // VerifInject delivers a probe completion through the same path go-health uses
-// (build tag `verif` only).
-func (p *Prober) VerifInject(state *gohealth.State) {
+// (build tag `verif` only). It reports false when the prober is stopped (the completion is dropped).
+func (p *Prober) VerifInject(state *gohealth.State) bool {
+	if p.stopped.Load() {
+		return false
+	}
 	p.healthCheckCompleted(state)
+	return true
 }
